@@ -4,7 +4,7 @@ id=$1; prop=$2; shift 2
 cd /verif
 cp evidence/$prop.json /tmp/ev_$prop.$$ 2>/dev/null
 git -C /repo apply /verif/seeded/$id/patch.diff || exit 3
-out=$(./check $prop "$@" 2>&1); rc=$?
+out=$(python3-vt ./check $prop "$@" 2>&1); rc=$?
 git -C /repo checkout -- .
 echo "$out" | grep -E "^VIOLATION|^KNOWN|quick:|thorough:" | sed 's/replay=.*//' | sort | uniq -c | tail -n 4
 echo "SEED $id vs $prop: exit=$rc"
